@@ -238,6 +238,7 @@ pub fn answer(req: &str) -> String {
         ("find", [k]) => fmt_opt(guarded(|| Five::find_in_products(*k as usize))),
         ("enum5", [a, p]) if *a < 52 && *p < 120 => enum5(*a as usize, *p as usize),
         ("enum5b", [a]) if *a < 53 => enum5b(*a as usize),
+        ("enum6", [a]) if *a < 52 => enum6(*a as usize),
         ("ev5", ws) if ws.len() == 5 => {
             let Some(ws) = u32s(ws) else { return "bad-request".into() };
             let arr = [ws[0], ws[1], ws[2], ws[3], ws[4]];
@@ -489,6 +490,61 @@ fn enum5b(a: usize) -> String {
     out.trim_end().to_string()
 }
 
+fn hand_sum(h: [u32; 5]) -> u64 {
+    (h[0] as u64 + 3 * h[1] as u64 + 5 * h[2] as u64 + 7 * h[3] as u64 + 11 * h[4] as u64) % 1000003
+}
+
+/// bulk answer: every six-card hand with lowest deck index `a`: value and checksum of the reported hand
+fn enum6(a: usize) -> String {
+    let deck = layout_deck();
+    let mut out = String::new();
+    for b in a + 1..52 { for c in b + 1..52 { for d in c + 1..52 { for e in d + 1..52 { for f in e + 1..52 {
+        let h = Six::from([deck[a], deck[b], deck[c], deck[d], deck[e], deck[f]]);
+        match guarded(|| h.hand_rank_value_and_hand()) {
+            Some((v, hand)) => { out.push_str(&format!("{v} {} ", hand_sum(hand.to_arr()))); }
+            None => out.push_str("panic "),
+        }
+    } } } } }
+    out.trim_end().to_string()
+}
+
+/// six/seven-card case stream shared by C02, C03, C09 (value AND reported hand are compared)
+fn cases_sixseven(c: &mut Cases, rng: &mut Rng, thorough: bool) {
+    let deck = layout_deck();
+    let word = |r: usize, su: usize| deck[(3 - su) * 13 + (12 - r)];
+    // for every row of both published tables: a hand whose unique best five (a straight flush) sits
+    // exactly in that row's slots, every top rank, seeded suit, low off-suit fillers
+    for n in [6usize, 7] {
+        for row in index_combos(n, 5) {
+            for top in 4..13usize {
+                let su = rng.below(4) as usize;
+                let other = (su + 1 + rng.below(3) as usize) % 4;
+                let sf: Vec<u32> = (0..5).map(|k| word(top - k, su)).collect();
+                // fillers: ranks far from the straight, different suit, never making a better hand
+                let fill_ranks: Vec<usize> = (0..13).filter(|r| *r + 1 < top.saturating_sub(4) || *r > top + 1).collect();
+                if fill_ranks.len() < n - 5 { continue; }
+                let mut ws = vec![0u32; n];
+                let mut k = 0;
+                let mut fk = 0;
+                for (slot, w) in ws.iter_mut().enumerate() {
+                    if row.contains(&slot) { *w = sf[k]; k += 1; } else { *w = word(fill_ranks[fk], other); fk += 1; }
+                }
+                c.emit(&format!("ev{n}/best-five-in-row"), &format!("ev{n} {}", join(&ws)));
+            }
+        }
+        for _ in 0..(if thorough { 600_000 } else { 60_000 }) {
+            let mut idx: Vec<usize> = (0..52).collect();
+            rng.shuffle(&mut idx);
+            c.emit(&format!("ev{n}/seeded-distinct-cards-seeded-order"), &format!("ev{n} {}", join(idx[..n].iter().map(|i| deck[*i]))));
+        }
+    }
+    if thorough {
+        for a in 0..47 {
+            c.emit("enum6/all-six-card-hands-with-lowest-card-a", &format!("enum6 {a}"));
+        }
+    }
+}
+
 /// keys for the product search: small keys, every table key and its neighbours, powers of two, seeded
 fn find_keys(rng: &mut Rng, seeded: usize) -> Vec<u64> {
     let mut keys: Vec<u64> = (0..4100).collect();
@@ -579,6 +635,7 @@ pub fn cases(prop: &str, thorough: bool, seed: u64, c: &mut Cases) {
                 c.emit("find", &format!("find {k}"));
             }
         }
+        "C02" | "C03" | "C09" => cases_sixseven(c, &mut rng, thorough),
         "C05" => {
             for a in 0..53 {
                 c.emit("enum5b/all five-slot multisets over cards+blank with lowest symbol a", &format!("enum5b {a}"));
@@ -770,6 +827,7 @@ pub fn sweep(prop: &str, thorough: bool, seed: u64) -> Sweep {
         "C13" => sweep_c13(seed, thorough),
         "C05" => sweep_c05(seed, thorough),
         "C06" => sweep_c06(),
+        "C02" | "C03" | "C09" => sweep_sixseven(prop, seed, thorough),
         "C07" => sweep_c07(seed, thorough),
         "C20" => sweep_c20(),
         _ => panic!("no sweep for {prop}"),
@@ -1659,4 +1717,135 @@ fn sweep_c07(seed: u64, thorough: bool) -> Sweep {
     s.sample(format!("from(1).cmp(from(2)) = {:?}", ranks[1].cmp(&ranks[2])));
     s.sample(format!("from(7462).cmp(from(0)) = {:?}", ranks[7462].cmp(&ranks[0])));
     s
+}
+
+/// C02 / C03 / C09 on the implementation: all six-card hands (canonical order) and seven-card hands
+/// (seeded in quick, all 133,784,560 in thorough), seeded slot orders on a sample.
+fn sweep_sixseven(prop: &str, seed: u64, thorough: bool) -> Sweep {
+    let oracle = Oracle5::load();
+    let deck = layout_deck();
+    // oracle value of five deck indices
+    let o5 = |i: [usize; 5]| -> u16 { oracle.of_indices(&i).0 };
+    let combos6 = index_combos(6, 5);
+    let combos7 = index_combos(7, 5);
+    let combos76 = index_combos(7, 6);
+    let check = |idx: &[usize], s: &mut Sweep| {
+        let n = idx.len();
+        let ws: Vec<u32> = idx.iter().map(|i| deck[*i]).collect();
+        s.evaluations += 1;
+        let rows = if n == 6 { &combos6 } else { &combos7 };
+        let best = rows.iter().map(|r| o5([idx[r[0]], idx[r[1]], idx[r[2]], idx[r[3]], idx[r[4]]])).min().unwrap();
+        let got = guarded(|| {
+            if n == 6 {
+                let h = Six::from([ws[0], ws[1], ws[2], ws[3], ws[4], ws[5]]);
+                (h.hand_rank_value_and_hand(), h.hand_rank_value(), h.hand_rank_value_validated())
+            } else {
+                let h = Seven::from([ws[0], ws[1], ws[2], ws[3], ws[4], ws[5], ws[6]]);
+                (h.hand_rank_value_and_hand(), h.hand_rank_value(), h.hand_rank_value_validated())
+            }
+        });
+        let Some(((v, hand), v2, vv)) = got else {
+            s.fail("ranking panics on distinct real cards", &join(&ws), "a value", "panic");
+            return;
+        };
+        match prop {
+            "C02" => {
+                if !(v == best && v2 == best && vv == best) {
+                    // name the slot combination that holds the best five
+                    let row = rows.iter().find(|r| o5([idx[r[0]], idx[r[1]], idx[r[2]], idx[r[3]], idx[r[4]]]) == best).unwrap();
+                    s.fail(&format!("{n}-card value is not the best five-card value it contains (best five in slots {row:?})"), &join(&ws), &best.to_string(), &format!("{v} {v2} {vv}"));
+                }
+            }
+            "C03" => {
+                let h = hand.to_arr();
+                let distinct = (0..5).all(|i| (i + 1..5).all(|j| h[i] != h[j]));
+                let from_input = h.iter().all(|w| ws.contains(w));
+                let sorted = h.windows(2).all(|p| p[0] >= p[1]);
+                let rerank = guarded(|| Five::from(h).hand_rank_value());
+                if !(distinct && from_input && sorted && rerank == Some(v)) {
+                    s.fail("reported best hand is not a sorted five-card witness from the input (distinct, from input, descending, re-ranks to the value)", &join(&ws), &format!("value {v}"), &format!("hand {} distinct {distinct} from_input {from_input} sorted {sorted} rerank {rerank:?}", join(h)));
+                }
+            }
+            _ => {
+                // C09: no oracle, only the implementation's own values
+                if n == 6 {
+                    let mut m = u16::MAX;
+                    for r in rows {
+                        let f = Five::from([ws[r[0]], ws[r[1]], ws[r[2]], ws[r[3]], ws[r[4]]]).hand_rank_value();
+                        if v > f {
+                            s.fail("six-card value is weaker than one of its five-card sub-hands", &join(&ws), &format!("<= {f}"), &v.to_string());
+                        }
+                        m = m.min(f);
+                    }
+                    if v != m {
+                        s.fail("six-card value is not the smallest of its six five-card values", &join(&ws), &m.to_string(), &v.to_string());
+                    }
+                } else {
+                    let mut m = u16::MAX;
+                    for r in &combos76 {
+                        let g = Six::from([ws[r[0]], ws[r[1]], ws[r[2]], ws[r[3]], ws[r[4]], ws[r[5]]]).hand_rank_value();
+                        if v > g {
+                            s.fail("seven-card value is weaker than one of its six-card sub-hands", &join(&ws), &format!("<= {g}"), &v.to_string());
+                        }
+                        m = m.min(g);
+                    }
+                    if v != m {
+                        s.fail("seven-card value is not the smallest of its seven six-card values", &join(&ws), &m.to_string(), &v.to_string());
+                    }
+                }
+            }
+        }
+    };
+    let mut total = Sweep { exhaustive: thorough, ..Default::default() };
+    // all six-card hands, canonical order
+    let parts: Vec<Sweep> = par_ranges(47, 47, |lo, hi| {
+        let mut s = Sweep::default();
+        for a in lo as usize..hi as usize {
+            for b in a + 1..52 { for c in b + 1..52 { for d in c + 1..52 { for e in d + 1..52 { for f in e + 1..52 {
+                check(&[a, b, c, d, e, f], &mut s);
+            } } } } }
+        }
+        s
+    });
+    for p in parts { total.merge(p); }
+    total.count("six-card hands (all, canonical order)", 20_358_520);
+    if thorough {
+        let parts: Vec<Sweep> = par_ranges(46 * 52, 46 * 52, |lo, hi| {
+            let mut s = Sweep::default();
+            for ab in lo as usize..hi as usize {
+                let (a, b) = (ab / 52, ab % 52);
+                if b <= a { continue; }
+                for c in b + 1..52 { for d in c + 1..52 { for e in d + 1..52 { for f in e + 1..52 { for g in f + 1..52 {
+                    check(&[a, b, c, d, e, f, g], &mut s);
+                } } } } }
+            }
+            s
+        });
+        for p in parts { total.merge(p); }
+        total.count("seven-card hands (all, canonical order)", 133_784_560);
+    }
+    // seeded hands in seeded slot orders
+    let n_seeded: u64 = if thorough { 20_000_000 } else { 2_000_000 };
+    let parts: Vec<Sweep> = par_ranges(n_seeded, threads(), |lo, hi| {
+        let mut s = Sweep::default();
+        let mut rng = Rng::new(seed ^ lo ^ 0x67);
+        let mut idx: Vec<usize> = (0..52).collect();
+        for k in lo..hi {
+            rng.shuffle(&mut idx);
+            let n = if k % 4 == 0 { 6 } else { 7 };
+            check(&idx[..n], &mut s);
+        }
+        s
+    });
+    for p in parts { total.merge(p); }
+    total.count("seeded six/seven-card hands in seeded slot orders", n_seeded);
+    total.nontrivial = total.evaluations;
+    total.rule = match prop {
+        "C02" => "value of every six-card hand (and seeded / all seven-card hands, seeded slot orders) against the minimum over its five-card subsets of the spec-derived strength ordinal; every hand is distinct and non-trivial",
+        "C03" => "the (value, hand) pair reported for every six-card hand (and seeded / all seven-card hands, seeded slot orders): five distinct words from the input, descending, re-ranking to the value",
+        _ => "for every six-card hand: value <= each of its six five-card values and = their minimum; for seven-card hands (seeded / all): value <= each of its seven six-card values and = their minimum; implementation values only, no oracle",
+    }.into();
+    let h = Seven::from([deck[51], deck[0], deck[20], deck[1], deck[2], deck[3], deck[4]]);
+    total.sample(format!("2C AS 7H KS QS JS TS -> {:?}", guarded(|| { let (v, f) = h.hand_rank_value_and_hand(); (v, f.to_arr()) })));
+    total
 }
